@@ -86,6 +86,66 @@ CHECKS["C07"] = dict(
     note="The circuit table is driven directly with real Circuit/Hop objects and keys (protocol side: C04/C05/C09). AEAD hiding "
          "is checked by a 16-byte window rule, not proven.")
 
+CHECKS["C02"] = dict(
+    category="exploration", design_ref="DESIGN.md 2/C02, Appendix B",
+    technique="PBT round-trip + differential against an independent reference encoder written from the documented wire table",
+    text="For each of 60 discovered Serializable classes, all 44 registered packers, the cell header and harness fixtures, "
+         "Hypothesis values plus index-enumerated sweeps (all 256 values of every bits byte, every start offset 0..32) are "
+         "round-tripped (field equality, exact offsets, re-encode, non-zero offsets, nested and listed) and compared byte "
+         "for byte with pv.refcodec / specs/wire_layouts.json, which share no code with the implementation.",
+    note="Trusted: the hand transcription of the documented layouts (specs/wire_layouts.json, DESIGN Appendix B). Element "
+         "byte order of arrayH-q/d is left to the round-trip clauses. A class without a value strategy is a harness error.")
+CHECKS["C13"] = dict(
+    category="exploration", design_ref="DESIGN.md 2/C13",
+    technique="exhaustive configuration product x Hypothesis-drawn delivery schedules on a NAT-enforcing simulated network",
+    text="All 380 configurations (19 NAT type/placement combinations x old/new request style x introduced peer style x 1-5 "
+         "candidates) run the real introduction / puncture protocol between real Community instances behind simulated cone "
+         "NATs; Hypothesis orders every delivery and early walks; puncture-request/puncture bookkeeping, reachability under "
+         "the happens-before rule, mutual verification and same-NAT LAN connection are judged from simulator ground truth.",
+    note="Symmetric NATs, packet loss and the same-host branch (address_is_lan) are outside the check. NAT model: "
+         "endpoint-independent mapping, full/address/port filtering, no hair-pinning.")
+CHECKS["C14"] = dict(
+    category="exploration", design_ref="DESIGN.md 2/C14",
+    technique="model-based PBT: long generated histories on the real RoutingTable vs brute-force oracles; exhaustive Trie-vs-dict comparison",
+    text="Seed-expanded histories (up to 300 steps quick / 2000 thorough; uniform, clustered-on-own-prefix, duplicate and "
+         "address-update identifiers; all node statuses via a manual clock) are checked after every step for partition, "
+         "ownership, capacity, own-path splitting, exact k-closest (brute force) and in-bucket refresh ids; every set/del "
+         "word on short binary keys compares Trie with a dict model.",
+    note="Trusted: brute-force oracles. Locking is not exercised. The eviction policy itself is not asserted.")
+CHECKS["C15"] = dict(
+    category="exploration", design_ref="DESIGN.md 2/C15",
+    technique="stateful PBT on simulated DHT nodes with an explicit token model; differential Storage-vs-dict machine",
+    text="Generated operation lists (find / store with seven token classes and many value classes / store-peer / rotation / "
+         "clock advance / maintenance / lookups) run against a real DHT(Discovery)Community target with properly signed "
+         "requesters; token validity is derived only from tokens seen in the target's own find-responses. Read side: real "
+         "find_values against servers incl. a malicious one; reported (data, key) pairs are re-verified independently. "
+         "A bounded-exhaustive + Hypothesis Storage machine is compared with a dict model.",
+    note="Trusted: signature primitive. Behaviour on undecodable values (lookup raises) is an availability matter outside the statement and only counted.")
+CHECKS["C16"] = dict(
+    category="exploration", design_ref="DESIGN.md 2/C16",
+    technique="bounded-exhaustive arrival orders (all tree shapes <= 6 tokens x all permutations) with Hypothesis-drawn noise vs a reference closure",
+    text="Every rooted tree shape with up to 6 tokens in every arrival permutation (37 205 orders; thorough adds 7-token "
+         "shapes) is offered to a public TokenTree view, clean and mixed with forged / foreign / dangling / duplicate tokens "
+         "and right or wrong content; after every arrival the element set is compared with a closure computed from "
+         "construction facts only; random larger trees, serialisation round trips and arbitrary byte strings are added.",
+    note="Exhaustive only over the stated shapes/orders. The oracle never verifies a signature itself: validity is known by construction.")
+CHECKS["C17"] = dict(
+    category="exploration", design_ref="DESIGN.md 2/C17",
+    technique="stateful PBT with honest and dishonest peers on simulated IdentityCommunity nodes vs an explicit consent model",
+    text="Three bounded-exhaustive families (two live registrations for different subjects; chain positions opened to "
+         "different peers; all attest / replay / crafted-disclosure kinds) and Hypothesis histories up to 45 operations are "
+         "delivered datagram by datagram; every emitted AttestPayload, every Attestations row and every token handed out "
+         "is judged against a consent / permission model fed only by user actions and delivered bytes.",
+    note="Trusted: signature primitive. Age of exactly 300 s, overwritten registrations and attestations embedded in disclosures are accepted either way.")
+CHECKS["C20"] = dict(
+    category="exploration", design_ref="DESIGN.md 2/C20",
+    technique="differential PBT over generated payload definitions: interpreted vs vp_compile vs dataclass vs a reference model",
+    text="All 44 shipped VariablePayload definitions (against an interpreted twin) and Hypothesis-generated definitions "
+         "(1-12 fields over every registered format, bits anywhere, nesting and lists to depth 2, defaults of every type, "
+         "invertible fix_pack/fix_unpack hooks, old-style base) are materialised in three forms and compared on constructor "
+         "behaviour, to_pack_list, bytes and decoded attributes.",
+    note="Per-field packers are shared by all forms (their correctness is C02). Invalid constructor calls are not compared.")
+
 PENDING = {}
 
 def main():
